@@ -1609,9 +1609,12 @@ func ElementLoopRule(w *World, b *Backend, r *Result, rule string) {
 // condition "is a literal", an assignment skipped because "the text did not change", leave the
 // script without the line in exactly the cases the shortcut did not think of. (Choices of
 // quoting inside a line are judged by the quoting rules, not here.)
-func EmitCondRule(w *World, b *Backend, r *Result, rule string) {
+func EmitCondRule(w *World, b *Backend, r *Result, rule string, only ...string) {
 	var names []string
 	for n := range b.X.Methods {
+		if len(only) > 0 && !contains(only, n) {
+			continue
+		}
 		names = append(names, n)
 	}
 	sort.Strings(names)
@@ -1623,6 +1626,17 @@ func EmitCondRule(w *World, b *Backend, r *Result, rule string) {
 			n++
 			for _, c := range em.Conds {
 				if !strings.Contains(c, "data:") {
+					continue
+				}
+				// only the text of VALUES counts (strings, ints, bools the program computes);
+				// operators, types and names are the converter's own decision table
+				org := strings.SplitN(strings.SplitN(c, "data:", 2)[1], ":", 2)[0]
+				switch classOfOrigin(org, ClsStr) {
+				case ClsStr, ClsBool, ClsInt, ClsProg, ClsSlice:
+				default:
+					continue
+				}
+				if _, known := paramClass[org]; !known {
 					continue
 				}
 				key := fmt.Sprintf("emitcond:%s:%s:%s", b.Role, name, strings.SplitN(strings.TrimPrefix(strings.TrimPrefix(c, "!("), "data:"), ":", 2)[0])
